@@ -13,13 +13,13 @@ from . import _codec_common as cc
 ID = "C07"
 TITLE = "Deserialization is total and obeys implicit truncation / zero extension"
 RULE = (
-    "Cases are (type spec, byte string, flags): specs from G-TYPE (capacities <= 12, nested delimited members), bytes that are uniformly "
+    "Cases are (type spec, byte string, flags): specs from G-TYPE (capacities <= 12, nested delimited members) plus five fixed specs with 16 / 32-bit length prefixes and payloads beyond 255 bytes, bytes that are uniformly "
     "random (length 0..2x the longest representation), a prefix of a valid representation, a valid representation with 1..3 flipped bits "
     "(hitting length prefixes, tags, delimiter headers), a valid representation followed by junk, a valid representation with one delimiter header made smaller or larger, or all-0xFF; with and without the "
     "top-level delimiter header.  Oracles: exception whitelist (SerDesError / ValueError); differential against an independent decoder "
     "(value, or error category array-length / union-tag / delimiter-header / UTF-8); fixed point deserialize(serialize(x)) == x; implicit "
     "truncation (junk after a complete representation ignored); zero extension (b and b+zeros decode alike unless b fails on a delimiter "
-    "header); buffer isolation (memoryview slices with different surroundings).  Non-trivial = the bytes end inside the representation, "
+    "header); buffer isolation (memoryview slices with different surroundings, a strided view, no aliasing of the caller's buffer).  Non-trivial = the bytes end inside the representation, "
     "or decoding raises a validation error, or the type has a nested delimited member."
 )
 ASSUMPTIONS = [
@@ -118,6 +118,19 @@ def check_bytes(case: typing.Any, ctx: Ctx) -> Info:
         view = memoryview(big)[len(pre) : len(pre) + len(data)]
         iso = cc.deserialize_outcome(t, spec, view, with_header, what="deserialize-memoryview")
         require(cc.same_outcome(spec, iso, got), "buffer-isolation", got, iso, detail + " inside %s..%s" % (pre.hex(), post.hex()))
+        # the caller may reuse its buffer afterwards: the returned object must not alias it
+        if iso[0] == "ok":
+            raw, _ = guarded(pydsdl.deserialize, t, view, with_delimiter_header=with_header, what="deserialize-memoryview")
+            for i in range(len(big)):
+                big[i] ^= 0xFF
+            later = ("ok", codec.from_python(spec, raw))  # converted only after the caller has scribbled over its buffer
+            require(cc.same_outcome(spec, later, got), "result-aliases-input-buffer", got, later, detail)
+    # a non-contiguous view (every second byte of an interleaved buffer) is the same byte string
+    inter = bytearray(2 * len(data))
+    inter[0::2] = data
+    inter[1::2] = b"\xa5" * len(data)
+    strided = cc.deserialize_outcome(t, spec, memoryview(inter)[::2], with_header, what="deserialize-strided-memoryview")
+    require(cc.same_outcome(spec, strided, got), "buffer-isolation:strided", got, strided, detail)
 
     ends_inside = valid is not None and len(data) < len(valid)
     if kind == "random":
@@ -133,20 +146,59 @@ def check_bytes(case: typing.Any, ctx: Ctx) -> Info:
     return Info(bool(nontrivial), classes, sample={"type": name, "bytes": data.hex(), "kind": kind, "outcome": got if got[0] == "error" else "ok"})
 
 
-def _cases() -> st.SearchStrategy:
-    specs = gt.composites(gt.small_capacity(), max_leaves=8)
+def _large_values(fs: typing.Any) -> st.SearchStrategy:
+    """Values whose arrays are long enough to need 16 / 32-bit length prefixes and payloads beyond 255 bytes."""
+
+    def arr(t: typing.Any) -> st.SearchStrategy:
+        cap = t[2]
+        n = st.sampled_from(sorted({0, 1, min(cap, 255), min(cap, 256), min(cap, 257), cap - 1, cap})) if t[0] == "var" else st.just(cap)
+        el = t[1][0]
+        if el == "byte":
+            return st.tuples(n, st.integers(0, 255)).map(lambda x: {"b": (bytes([x[1], (x[1] * 5 + 3) % 256, 0xFF]) * (x[0] // 3 + 1))[: x[0]].hex()})
+        if el == "utf8":
+            return st.tuples(n, st.sampled_from(["a", "\u00e9", "\u20ac", "\U0001F600"])).map(lambda x: (x[1] * x[0]).encode("utf-8")[: x[0]].decode("utf-8", "ignore"))
+        if el in ("delim", "struct", "union"):
+            return st.integers(0, min(cap, 20)).flatmap(lambda k: st.lists(val(t[1]), min_size=k, max_size=k))
+        return st.tuples(n, st.lists(gt.values(t[1]), min_size=1, max_size=4)).map(lambda x: [x[1][i % len(x[1])] for i in range(x[0])])
+
+    def val(t: typing.Any) -> st.SearchStrategy:
+        k = t[0]
+        if k in ("fixed", "var"):
+            return arr(t)
+        if k == "delim":
+            return val(t[1])
+        if k == "struct":
+            return st.fixed_dictionaries({n: val(ft) for n, ft in t[1] if n})
+        if k == "union":
+            return st.integers(0, len(t[1]) - 1).flatmap(lambda i: val(t[1][i][1]).map(lambda v: {t[1][i][0]: v}))
+        return gt.values(t)
+
+    return val(fs)
+
+
+LARGE_SPECS = [
+    ["struct", [["a", ["var", ["byte"], 300]], ["t", ["uint", 8, "sat"]]]],
+    ["struct", [["p", ["uint", 3, "sat"]], ["a", ["var", ["uint", 7, "sat"], 300]], ["t", ["uint", 16, "sat"]]]],
+    ["struct", [["s", ["var", ["utf8"], 70000]], ["d", ["delim", ["struct", [["x", ["var", ["byte"], 400]], ["y", ["int", 9]]]], 2]], ["t", ["bool"]]]],
+    ["delim", ["struct", [["items", ["var", ["delim", ["struct", [["b", ["var", ["byte"], 40]]]], 1], 20]], ["z", ["uint", 8, "sat"]]]], 4],
+    ["union", [["big", ["fixed", ["byte"], 280]], ["small", ["uint", 8, "sat"]], ["txt", ["var", ["utf8"], 260]]]],
+]
+
+
+def _cases(large: bool = False) -> st.SearchStrategy:
+    specs = st.sampled_from(LARGE_SPECS) if large else gt.composites(gt.small_capacity(), max_leaves=8)
 
     def with_bytes(args: typing.Tuple[typing.Any, str, bool]) -> st.SearchStrategy:
         spec, kind, header = args
         fs = layout.freeze(spec)
         base = {"spec": st.just(spec), "kind": st.just(kind), "header": st.just(header), "zeros": st.integers(0, 8)}
         if kind == "random":
-            mx = min(cc.max_bytes(fs, header and fs[0] == "delim"), 48)
+            mx = min(cc.max_bytes(fs, header and fs[0] == "delim"), 400 if large else 48)
             base["bytes"] = st.binary(max_size=2 * mx + 2).map(bytes.hex)
         elif kind == "ones":
             base["n"] = st.integers(0, 79)
         else:
-            base["value"] = gt.values(fs)
+            base["value"] = _large_values(fs) if large else gt.values(fs)
             if kind == "prefix":
                 base["cut"] = st.integers(0, 4096)
             elif kind == "flip":
@@ -200,7 +252,7 @@ def fuzz_corpus(ctx: Ctx) -> typing.List[bytes]:
 
 
 def parts(ctx: Ctx) -> typing.List[Part]:
-    out = [Part("bytes", _cases(), check_bytes, weight=1)]
+    out = [Part("bytes", _cases(), check_bytes, weight=12), Part("large", _cases(large=True), check_bytes, weight=1, cost=12.0, min_examples=8)]
     if ctx.tier != "quick":
         out.append(Part("fuzz-bytes", None, check_bytes, weight=1, fuzz_decode=fuzz_decode, fuzz_corpus=fuzz_corpus))
     return out
